@@ -19,12 +19,14 @@
 (*   "indent"   <sp><sp>// @sha256 <v1>       does not start with //       *)
 (*   "empty"    (empty line)                                               *)
 (*   "code"     fn f() {}                                                  *)
+(*   "block"    /* banner */                  starts with ONE slash only   *)
+(*   "slash1"   /                             a lone slash                 *)
 (* Cls gives, per class: does the line start with `//`, does it start with *)
 (* the prefix `// @sha256 `, and which remainder it then has.              *)
 (***************************************************************************)
 EXTENDS Naturals, Sequences, FiniteSets
 
-Classes == {"hash", "hash2", "dbl", "bare", "comment", "slashes", "doc", "nospace", "indent", "empty", "code"}
+Classes == {"hash", "hash2", "dbl", "bare", "comment", "slashes", "doc", "nospace", "indent", "empty", "code", "block", "slash1"}
 IsComment(c) == c \in {"hash", "hash2", "dbl", "bare", "comment", "slashes", "doc", "nospace"}
 HasPrefix(c) == c \in {"hash", "hash2", "dbl", "bare"}
 \* the remainder of the line after the prefix, as an abstract value
